@@ -111,7 +111,7 @@ def run(ck):
     ck.assume("ELF loading, draw() and the 'rand' pattern are not modelled", "bincopy's HEX/SREC writer and reader are third party: "
               "the file round trip is decided by running the real code (differential), the byte layout by the model",
               "negative offsets are covered by the oracle only (validate must refuse them)")
-    n = ck.budget(1500, 60000)
+    n = ck.budget(6000, 100000)
     s = ck.stream("trees", f"{n} random image trees (depth 1-4, <=5 children per node, offsets/sizes 0..300, alignments {{1,2,4,8,16,512}}, "
                   "patterns none/zeros/ones/inc/1-,2-,4-byte numbers, explicit and derived sizes, ~35% deliberately overlapping / sticking-out layouts, "
                   "zero-length children); len/export/validate compared with the model, oracle on the real object; non-trivial = distinct tree with >=1 child or binary")
@@ -212,7 +212,7 @@ def run(ck):
     # ---------------------------------------------------------------- file formats
     sf = ck.stream("file_formats", "save_binary_image/load_binary_image round trips for BIN, HEX and S19: 1-4 disjoint segments of 1..600 bytes at base addresses "
                    "up to 2^32-size (boundary classes 0, 0xFFFF/0x10000 crossings, 2^24, 2^32-len); bytes at the same absolute addresses; non-trivial = distinct layout")
-    for k in range(ck.budget(120, 3000)):
+    for k in range(ck.budget(300, 4000)):
         nseg = rng.randint(1, 4)
         ascii_case = k == 0  # one all-ASCII BIN payload per run keeps the known finding visible
         base = rng.choice([0, 0x10, 0xFFF0, 0xFFFF, 0x10000, 0xFFFFF0, 0x1000000, 0x0800_0000, 0xFFFF_F000, rng.getrandbits(32)])
